@@ -85,6 +85,8 @@ MODULE_A = '''\
 import os
 from helper_mod import hf, Helper
 from star_mod import *
+from star_mod2 import *
+from star_mod3 import *
 
 class Cls:
     def __init__(self, a, *r, k=1, **kw):
@@ -105,6 +107,22 @@ lam = lambda u: u.l
 '''
 HELPER = "class Helper:\n    def __init__(self, h):\n        self.h = h.hh\n\ndef hf(q):\n    return q.hq\n"
 STAR = "def only_one(s):\n    return s.star\n"
+
+
+def _without_tie_order(text: str) -> str:
+    """The document with every gets / sets / dels / calls list put in a canonical order - object key order (the order of
+    contexts and of import_irs) is kept, so any other difference between two documents survives."""
+    def canon(x, key=None):
+        if isinstance(x, dict):
+            return {k: canon(v, k) for k, v in x.items()}
+        if isinstance(x, list):
+            ys = [canon(v) for v in x]
+            return sorted(ys, key=lambda v: json.dumps(v, sort_keys=True)) if key in ("gets", "sets", "dels", "calls") else ys
+        return x
+    try:
+        return json.dumps(canon(json.loads(text)))
+    except Exception:  # noqa: BLE001
+        return text
 
 
 def analyse_project(root: Path, files: dict[str, str], target: str, follow=1):
@@ -198,7 +216,11 @@ def main(tier: str) -> int:
     n_objects = 0
     projects = []
     n_graphs = 8 if tier == "quick" else 120
-    projects.append(("module_a", {"target.py": MODULE_A, "helper_mod.py": HELPER, "star_mod.py": STAR}, "target.py"))
+    # several starred imports in one module: the order in which they are expanded is the order of the names in the context
+    projects.append(("module_a", {"target.py": MODULE_A, "helper_mod.py": HELPER, "star_mod.py": STAR,
+                                  "star_mod2.py": "def second_one(s):\n    return s.star2\n\ndef second_two(s):\n    return s.star2b\n",
+                                  "star_mod3.py": "from star_mod4 import *\n\ndef third_one(s):\n    return s.star3\n",
+                                  "star_mod4.py": "def fourth_one(s):\n    return s.star4\n"}, "target.py"))
     projects.append(("identical_imports", {"target.py": "from dup_one import f1\nfrom dup_two import f1 as f2\nfrom dup_three import f1 as f3\n\ndef use(a):\n    f1(a)\n    f2(a)\n    f3(a)\n",
                                           "dup_one.py": "def f1(p):\n    return p.same\n", "dup_two.py": "def f1(p):\n    return p.same\n",
                                           "dup_three.py": "def f1(p):\n    return p.same\n"}, "target.py"))
@@ -305,8 +327,8 @@ def main(tier: str) -> int:
                         sorted_problems.append({"project": name, "problem": p, "files": v["files"]})
         if len(distinct) > 1:
             info = {"project": name, "output": out, "distinct_documents": len(distinct), "files": v["files"]}
-            if out == "ir" and ties.get(name):
-                seed_known.append(info)
+            if out == "ir" and ties.get(name) and len({_without_tie_order(o[1]) for o in outs.values()}) == 1:
+                seed_known.append(info)       # the documents differ only in the order of equally named list elements (KF_C18_1)
             else:
                 seed_new.append(info)
 
